@@ -102,7 +102,32 @@ def click_defaults(ctx, fn):
             is_flag = const(kw.get("is_flag"), False) or any("/" in n for n in longs)
             multiple = const(kw.get("multiple"), False)
             out[pname] = const(kw.get("default"), False if is_flag else (() if multiple else None))
+        if "callback" in kw:
+            try:
+                v_ = click_callback(ctx, fn, d, out[pname], pname)
+                if not (isinstance(v_, tuple) and v_ and v_[0] == "rejected"):
+                    out[pname] = v_
+            except Exception:
+                pass
     return out
+
+
+def click_callback(ctx, fn, deco, value, pname="param"):
+    """click passes every parameter value (given or default) through the option's callback=, if it declares one, and hands the command what the callback RETURNS.
+    -> the value after the callback; ('rejected', why) when the callback raises click.BadParameter / UsageError."""
+    cb = next((k.value for k in deco.keywords if k.arg == "callback"), None)
+    if cb is None:
+        return value
+    interp = PureInterp(ctx, hooks={"multiprocessing.cpu_count": lambda: 3, "os.cpu_count": lambda: 3})
+    try:
+        f = interp.eval(cb, {}, fn.module)
+        return interp.apply(f, [Obj("click_context", params={}, obj=None, resilient_parsing=False), Obj("click_param", name=pname, opts=[], human_readable_name=pname), value], {}, 0)
+    except Raised as exc:
+        if exc.kind in ("BadParameter", "UsageError", "BadOptionUsage", "Abort", "Exit"):
+            return ("rejected", f"{exc.kind}: {exc.detail}")
+        raise
+    except Unsupported:
+        return value
 
 
 def call_command(ctx, interp, fn, args):
@@ -191,6 +216,46 @@ def eval_submit(ctx, id_a=None, id_b=None):
     except (Raised, Unsupported) as exc:
         return None, f"{exc}", m
     return (captured, dict(obj._tracked_jobs), dict(obj._job_states)), None, m
+
+
+def eval_backend_session(ctx):
+    """One TrackingBackend object through the calls the scheduler makes for a chain A -> B whose A ran before (tracked, COMPLETED) and has to run again:
+    status(A) (asked up to four times), submit(A), status(A), submit(B, [A]), status(B), cancel(A).  Returns (list of differences, error, method)."""
+    tb, obj = tracking_backend(ctx, {"A": tok("OLD_A"), "B": tok("OLD_B")}, {tok("OLD_A"): S("COMPLETED"), tok("OLD_B"): S("COMPLETED")})
+    calls = []
+
+    def h_submit_target(recv, target, ids):
+        calls.append(("submit", getattr(target, "name", None), list(ids)))
+        return tok("NEW_" + getattr(target, "name", "?"))
+    interp = PureInterp(ctx, hooks={"attr:submit_target": h_submit_target, "attr:cancel_job": lambda recv, jid: calls.append(("cancel", jid))})
+    m = ctx.index.method(tb, "submit")
+    st, cn = ctx.index.method(tb, "status"), ctx.index.method(tb, "cancel")
+    A, B = target_obj(ctx, name="A"), target_obj(ctx, name="B")
+    diffs = []
+    try:
+        for _ in range(4):
+            s0 = interp.call(st, (A,), {}, self_obj=obj)
+        if s0 != S("COMPLETED"):
+            diffs.append(f"status(A) is {s0} for a target whose tracked job is COMPLETED")
+        interp.call(m, (A, []), {}, self_obj=obj)
+        s1 = interp.call(st, (A,), {}, self_obj=obj)
+        if s1 != S("SUBMITTED"):
+            diffs.append(f"after A (tracked from an earlier run, COMPLETED) is submitted again in the same process status(A) is {s1}, not SUBMITTED: the backend still answers "
+                         "for the old job, so dependents decided later in the run do not wait for the new one")
+        interp.call(st, (B,), {}, self_obj=obj)
+        interp.call(m, (B, [A]), {}, self_obj=obj)
+        sub_b = [c for c in calls if c[0] == "submit" and c[1] == "B"]
+        if not sub_b or sub_b[0][2] != [tok("NEW_A")]:
+            diffs.append(f"A ran before (old job tracked), is submitted again and then B is submitted with prerequisite A in the same run: the scheduler is given the ids "
+                         f"{sub_b[0][2] if sub_b else None} instead of the id of the job just submitted for A: B waits for the old, finished job and starts at once - "
+                         "concurrently with A's re-run, and even if that fails")
+        interp.call(cn, (A,), {}, self_obj=obj)
+        can = [c for c in calls if c[0] == "cancel"]
+        if not can or can[0][1] != tok("NEW_A"):
+            diffs.append(f"cancel(A) after A was submitted again in the same process cancels {can[0][1] if can else None}, not the job just submitted")
+    except (Raised, Unsupported) as exc:
+        return None, f"{exc}", m
+    return diffs, None, m
 
 
 def eval_status(ctx):
@@ -2538,8 +2603,11 @@ def eval_task(ctx, deps=None, rc=0, timeout=False, spawn_fails=False, log_fails=
         return (set(aws), set())
 
     def h_spawn(*a, **k):
+        if spawn_fails == "eagain" and not any(e[0] == "spawn-refused" for e in ev):
+            ev.append(("spawn-refused", dict(k), a))      # fork() fails once with EAGAIN (the host is momentarily out of processes); a second attempt would succeed
+            raise Raised("BlockingIOError", "[Errno 11] Resource temporarily unavailable")
         ev.append(("spawn", dict(k), a))
-        if spawn_fails:
+        if spawn_fails is True:
             raise Raised("FileNotFoundError", "no such working directory")
         return proc
 
@@ -2618,21 +2686,29 @@ def _task_invariants(label, out):
     ev = out["events"]
     kinds = [e[0] for e in ev]
     diffs = []
-    n_acq, n_rel = kinds.count("acquire"), kinds.count("release")
-    if n_acq > 1:
-        diffs.append(f"{label}: the core semaphore is acquired {n_acq} times")
-    cancelled_in_acquire = any(e[0] == "cancel-delivered" and "acquire" in e[2] for e in ev)
-    held = n_acq - (1 if cancelled_in_acquire else 0)
-    if n_rel > max(held, 0):
-        diffs.append(f"{label}: release() is called {n_rel} time(s) although {max(held, 0)} core(s) were obtained: the pool grows by a slot for its lifetime")
-    if n_rel < held:
+    # the cores this task holds, event by event (a cancellation delivered inside acquire() means that acquire did not obtain one)
+    held = 0
+    for i, e in enumerate(ev):
+        if e[0] == "acquire":
+            held += 1
+            if held > 1:
+                diffs.append(f"{label}: the task obtains a second core while it still holds one")
+        elif e[0] == "cancel-delivered" and "acquire" in str(e[2]):
+            held -= 1
+        elif e[0] == "release":
+            held -= 1
+            if held < 0:
+                diffs.append(f"{label}: release() is called although the task holds no core (it gave it back before, or never obtained one): the pool grows by a slot for its "
+                             "lifetime, so more tasks run at once than there are workers")
+                held = 0
+        elif e[0] == "spawn" and held < 1:
+            diffs.append(f"{label}: the task's process is started without holding a core")
+        elif e[0] == "communicate" and held < 1:
+            diffs.append(f"{label}: the task's process runs while the task holds no core")
+    if held > 0:
         diffs.append(f"{label}: a core was obtained but never released: the slot is lost for the pool's lifetime")
     if "spawn" in kinds:
         i_sp = kinds.index("spawn")
-        if "acquire" not in kinds[:i_sp]:
-            diffs.append(f"{label}: the task's process is started without holding a core")
-        if "release" in kinds[:i_sp]:
-            diffs.append(f"{label}: the core is released before the process is started")
         kw = ev[i_sp][1]
         if not (kw.get("start_new_session") is True or kw.get("process_group") == 0):
             diffs.append(f"{label}: the process is not started as a session/group leader, so its children cannot be signalled")
@@ -2724,6 +2800,18 @@ def task_coroutine_witness(ctx):
             diffs.append(f"a task whose process cannot be started (missing working directory) ends {out['final']}, expected FAILED")
         if any(e[0] in ("killpg", "proc.wait", "proc.kill") for e in out["events"]):
             diffs.append("a task whose process could not be started runs the kill sequence on a process that does not exist")
+        # fork() refused once (EAGAIN): whether the task gives up (FAILED) or tries again, the cores it obtained and gave back must balance - also when it is cancelled on the way
+        out = run("the process cannot be started at the first attempt (fork: EAGAIN)", spawn_fails="eagain")
+        if out["final"] not in ("FAILED", "COMPLETED"):
+            diffs.append(f"a task whose process cannot be started at the first attempt (EAGAIN) ends {out['final']}, expected FAILED (or COMPLETED after a successful retry)")
+        for k in range(1, out["awaits"] + 1):
+            label = f"fork refused once (EAGAIN), cancelled at await #{k} (`{out['await_log'][k - 1]}`)"
+            o2 = run(label, spawn_fails="eagain", cancel_at=k)
+            k2 = [e[0] for e in o2["events"]]
+            if "cancel-delivered" in k2 and o2["final"] != "CANCELLED":
+                diffs.append(f"{label}: the task ends {o2['final']}, expected CANCELLED")
+            if "spawn" in k2 and "cancel-delivered" in k2[k2.index("spawn"):] and not any(e[0] == "killpg" and "KILL" in str(e[2]) for e in o2["events"]):
+                diffs.append(f"{label}: the running process group is not sent SIGKILL")
         out = run("the log files cannot be written", log_fails=True)
         if out["final"] != "FAILED":
             diffs.append(f"a task whose logs cannot be written ends {out['final']}, expected FAILED")
@@ -3265,9 +3353,9 @@ def _click_convert(ctx, fn, opt_long, text):
             raise Unsupported(f"click parameter type {typ_name}")
         if (lo is not None and v < lo) or (hi is not None and v > hi):
             if isinstance(typ, ast.Call) and clamp:
-                return min(max(v, lo if lo is not None else v), hi if hi is not None else v)    # clamp=True silently moves the value into the range
+                return click_callback(ctx, fn, d, min(max(v, lo if lo is not None else v), hi if hi is not None else v))    # clamp=True silently moves the value into the range
             return ("rejected", f"{v} is not in the range")
-        return v
+        return click_callback(ctx, fn, d, v)
     raise Unsupported(f"option {opt_long} not found")
 
 
